@@ -527,6 +527,35 @@ def make_hooks(real_only_sinks=None):
         return Arr(x.shape, [DV(tags, 'c') for _ in range(x.size)])
     hooks['np.fft.fft'] = fft
 
+    def convolve1d(models, seq, weights, axis=-1, mode='reflect', origin=0):
+        """Data-abstract convolve1d: interior slots as in the exact model; a border slot (window leaves the
+        array, value depends on the boundary mode) is some finite combination of its own column."""
+        seq = models.np_asarray(seq)
+        if not has_dv(seq):
+            return NotImplemented
+        saved = models.hooks.pop('convolve1d')
+        try:
+            res = models.convolve1d(seq, weights, axis=axis, mode=mode, origin=origin)
+        finally:
+            models.hooks['convolve1d'] = saved
+        from .libmodels import BORDER
+        if not any(v is BORDER for v in res.items()):
+            return res
+        ax = axis % seq.ndim
+        perm = [ax] + [k for k in range(seq.ndim) if k != ax]
+        m_in, m_out = seq.transpose(perm), res.transpose(perm)
+        n0 = m_in.shape[0]
+        cols = _prod(m_in.shape[1:])
+        it_in, it_out = m_in.items(), m_out.items()
+        for c in range(cols):
+            col = join_values([it_in[r * cols + c] for r in range(n0)], tags_of(models.np_asarray(weights)))
+            col = DV(col.tags, col.kind, 'any')
+            for r in range(n0):
+                if it_out[r * cols + c] is BORDER:
+                    m_out.buf.data[m_out.pos[r * cols + c]] = col
+        return res
+    hooks['convolve1d'] = convolve1d
+
     def kind_of(a):
         if isinstance(a, DV):
             return a.kind
